@@ -427,6 +427,9 @@ func printResult(res *sym.HarnessResult, detail bool) {
 	}
 	for _, v := range res.Violations {
 		fmt.Printf("   VIOL %s (x%d) inputs=%v decisions=%v\n", v.Key, v.Count, v.Inputs, v.Decisions)
+		for _, l := range v.Log {
+			fmt.Printf("        log: %s\n", l)
+		}
 	}
 	for k, v := range res.Known {
 		fmt.Printf("   KNOWN %s inputs=%v\n", k, v.Inputs)
